@@ -363,8 +363,14 @@ def write_bytecode_file(
     """Write bytecode file _bytecode_path_, with code for having Python
     magic_int (i.e. bytecode associated with some version of Python)
     """
-    fp = open(bytecode_path, "wb")
     version = py_str2tuple(magicint2version[magic_int])
+    if (2, 0) <= version < (2, 3) and not isinstance(code_obj, types.CodeType):
+        # Before 2.3 the counters of a code object are 16-bit fields;
+        # xdis.marsh only writes the 32-bit layout of 2.3 and later.
+        raise TypeError(
+            "writing Python %s bytecode is not supported" % magicint2version[magic_int]
+        )
+    fp = open(bytecode_path, "wb")
     if version >= (3, 0):
         fp.write(pack("<Hcc", magic_int, b"\r", b"\n"))
         if version >= (3, 7):  # pep552 bytes
